@@ -61,6 +61,7 @@ def host_classes():
     n_primals: int = 1
     has_aux: bool = False
     diff_cols: tuple = ('params',)
+    empty_tangent_cols: tuple = ()   # collections spelled as {} in variable_tangents: documented to mean a zero tangent
 
     def core(self):
       NodeC = C['NodeC'] if self.inner[1] == 'compact' else C['NodeS']
@@ -96,6 +97,10 @@ def host_classes():
         fn = make_fn(self.n_primals, False, False)
         primals_t, vars_t = ct
         vt = {c: vars_t[c] for c in self.diff_cols if c in vars_t}
+        if self.empty_tangent_cols:
+          # key order as given by the caller: an empty collection first or last
+          empties = {c: {} for c in self.empty_tangent_cols}
+          vt = {**empties, **vt} if len(self.empty_tangent_cols[0]) % 2 else {**vt, **empties}
         y, y_t = nn.jvp(fn, core, tuple(primals), tuple(primals_t), variable_tangents=vt)
         return dict(y=y, y_t=y_t)
       if k == 'custom_vjp':
@@ -213,7 +218,11 @@ def run_case(ctx, i, rng):
       out = fn(lambda x: core_mod.apply(vv, x), *ps)
       return out
 
-    host = Host(kind, inner, d, n_primals, has_aux, diff_cols)
+    empty_cols = ()
+    if kind == 'jvp' and rng.random() < 0.5:
+      empty_cols = tuple(c for c in ('batch_stats', 'params', 'state') if c not in diff_cols and rng.random() < 0.7)
+      desc['empty_tangent_collections'] = empty_cols
+    host = Host(kind, inner, d, n_primals, has_aux, diff_cols, empty_cols)
     vsel = {c: sub[c] for c in diff_cols}
     if kind == 'vjp':
       y_ref = pure(vsel, *primals, scalar=False, aux=False)
